@@ -43,8 +43,9 @@ Section Inv.
 Variable univ : list key.
 Variable tr : iobj -> (N -> filt -> list sobj) -> list dep * list (key * N).
 Variable owner : key -> key.
-(* static key ownership: whatever an input emits belongs to that input *)
-Hypothesis H_owned : forall i phi k v, In (k, v) (snd (tr i phi)) -> owner k = fst i.
+Variable valid : iobj -> Prop.
+(* static key ownership: whatever a (valid) input emits belongs to that input *)
+Hypothesis H_owned : forall i phi k v, valid i -> In (k, v) (snd (tr i phi)) -> owner k = fst i.
 (* the transformation only depends on the sources through the Fetch calls it reports *)
 Hypothesis H_pure : forall i phi psi,
   (forall d, In d (fst (tr i phi)) -> phi (d_id d) (d_filter d) = psi (d_id d) (d_filter d)) ->
@@ -60,22 +61,27 @@ Definition Kinv (W : world) : Prop :=
   forall a e, lastentry a (concat (qP W)) None = Some e -> (snd e = true <-> wP W a = None).
 Definition Pkey (W : world) : Prop := forall a i, wP W a = Some i -> fst i = a.
 Definition Pdom (W : world) : Prop := forall a i, wP W a = Some i -> In a (wPdom W).
+Definition Pvalid (W : world) : Prop := forall a i, wP W a = Some i -> valid i.
+(* every object put into P is valid *)
+Definition act_valid (x : act) : Prop :=
+  match x with APPut i => valid i | APReset l => forall i, In i l -> valid i | _ => True end.
 Definition pendingS (qs : list (N * list sev)) (D : dstate) (a : key) : Prop :=
   exists c evs e ds, In (c, evs) qs /\ In e evs /\ d_deps D a = Some ds /\ object_changed ds c e false = true.
 Definition covered (W : world) (a : key) : Prop :=
   rec_ok (wS W) (wD W) a (wP W a) \/ hasEntry a (qP W) \/ pendingS (qS W) (wD W) a.
 Definition Inv (W : world) : Prop :=
-  Dinv (wD W) /\ Kinv W /\ Pkey W /\ Pdom W /\ forall a, covered W a.
+  Dinv (wD W) /\ Kinv W /\ Pkey W /\ Pdom W /\ Pvalid W /\ forall a, covered W a.
 
 Lemma Inv_w0 : Inv w0.
 Proof.
-  split; [|split; [|split; [|split]]].
+  split; [|split; [|split; [|split; [|split]]]].
   - split; [|split; [|split]].
     + intros a ks k H. discriminate.
     + intros k v H. discriminate.
     + split; intros a ds; [intros d H|intros H]; discriminate.
     + intros a ds d H. discriminate.
   - intros a e H. cbn in H. discriminate.
+  - intros a i H. discriminate.
   - intros a i H. discriminate.
   - intros a i H. discriminate.
   - intros a. left. cbn. intros ks k H. discriminate.
@@ -148,10 +154,10 @@ Proof.
 Qed.
 
 (* P mutations *)
-Lemma Inv_pput W i : Inv W -> Inv (exec univ tr W (APPut i)).
+Lemma Inv_pput W i : valid i -> Inv W -> Inv (exec univ tr W (APPut i)).
 Proof.
-  intros (HD&HK&Hk&Hd&Hc). cbn [exec].
-  split; [exact HD|split; [|split; [|split]]]; unfold Kinv, Pkey, Pdom, covered; cbn [wP wPdom wS qP qS wD].
+  intros Hvi (HD&HK&Hk&Hd&Hv&Hc). cbn [exec].
+  split; [exact HD|split; [|split; [|split; [|split]]]]; unfold Pvalid; unfold Kinv, Pkey, Pdom, covered; cbn [wP wPdom wS qP qS wD].
   - intros a e H. rewrite concat_app in H. cbn [concat] in H. rewrite app_nil_r in H.
     revert a e H. apply (Kinv_push W); [exact HK| |].
     + intros a d [H|[]]. inversion H; subst. rewrite fset_eq. split; discriminate.
@@ -161,6 +167,7 @@ Proof.
   - intros a j H. apply addk_In. unfold fset in H. destruct (N.eqb a (fst i)) eqn:E.
     + left. apply N.eqb_eq. exact E.
     + right. eapply Hd; eauto.
+  - intros a j H. unfold fset in H. destruct (N.eqb a (fst i)); [inversion H; subst; exact Hvi|eapply Hv; eauto].
   - intros a. destruct (N.eq_dec a (fst i)) as [->|Hne].
     + right. left. eapply hasEntry_new. left. reflexivity.
     + destruct (Hc a) as [H|[H|H]].
@@ -172,14 +179,15 @@ Qed.
 Lemma Inv_pdel W a0 : Inv W -> Inv (exec univ tr W (APDel a0)).
 Proof.
   intros HI. cbn [exec]. destruct (wP W a0) as [i0|] eqn:E0; [|exact HI].
-  destruct HI as (HD&HK&Hk&Hd&Hc).
-  split; [exact HD|split; [|split; [|split]]]; unfold Kinv, Pkey, Pdom, covered; cbn [wP wPdom wS qP qS wD].
+  destruct HI as (HD&HK&Hk&Hd&Hv&Hc).
+  split; [exact HD|split; [|split; [|split; [|split]]]]; unfold Kinv, Pkey, Pdom, Pvalid, covered; cbn [wP wPdom wS qP qS wD].
   - intros a e H. rewrite concat_app in H. cbn [concat] in H. rewrite app_nil_r in H.
     revert a e H. apply (Kinv_push W); [exact HK| |].
     + intros a d [H|[]]. inversion H; subst. rewrite fset_eq. split; reflexivity.
     + intros a H. apply fset_neq. intros ->. apply (H (a0, true)); [left; reflexivity|reflexivity].
   - intros a j H. unfold fset in H. destruct (N.eqb a a0); [discriminate|eapply Hk; eauto].
   - intros a j H. unfold fset in H. destruct (N.eqb a a0); [discriminate|eapply Hd; eauto].
+  - intros a j H. unfold fset in H. destruct (N.eqb a a0); [discriminate|eapply Hv; eauto].
   - intros a. destruct (N.eq_dec a a0) as [->|Hne].
     + right. left. eapply hasEntry_new. left. reflexivity.
     + destruct (Hc a) as [H|[H|H]].
@@ -254,20 +262,21 @@ Proof.
     + right. exact H.
 Qed.
 
-Lemma Inv_preset W l : Inv W -> Inv (exec univ tr W (APReset l)).
+Lemma Inv_preset W l : (forall i, In i l -> valid i) -> Inv W -> Inv (exec univ tr W (APReset l)).
 Proof.
-  intros (HD&HK&Hk&Hd&Hc). cbn [exec]. cbn zeta.
+  intros Hvl (HD&HK&Hk&Hd&Hv&Hc). cbn [exec]. cbn zeta.
   set (b := reset_batch (wP W) (wPdom W) l).
   assert (Hq : concat (match b with [] => qP W | _ => qP W ++ [b] end) = concat (qP W) ++ b).
   { destruct b; [rewrite app_nil_r; reflexivity|]. rewrite concat_app. cbn. rewrite app_nil_r. reflexivity. }
   assert (Hne : forall a, (forall e, In e b -> fst e <> a) -> reset_map l a = wP W a).
   { intros a H. apply (reset_noentry (wP W) (wPdom W) l a Hk Hd H). }
-  split; [exact HD|split; [|split; [|split]]]; unfold Kinv, Pkey, Pdom, covered; cbn [wP wPdom wS qP qS wD].
+  split; [exact HD|split; [|split; [|split; [|split]]]]; unfold Kinv, Pkey, Pdom, Pvalid, covered; cbn [wP wPdom wS qP qS wD].
   - intros a e H. rewrite Hq in H. revert a e H. apply (Kinv_push W); [exact HK| |exact Hne].
     intros a d H. eapply reset_entry; eauto.
   - intros a i H. apply reset_map_Some in H. apply H.
   - intros a i H. apply reset_map_Some in H. destruct H as [H1 H2]. apply fold_addk_dom. right.
     apply in_map_iff. exists i. split; assumption.
+  - intros a i H. apply reset_map_Some in H. apply Hvl. apply H.
   - intros a.
     destruct (existsb (fun e => N.eqb (fst e) a) b) eqn:Ee.
     + right. left. apply existsb_exists in Ee. destruct Ee as [e [He1 He2]]. apply N.eqb_eq in He2.
@@ -306,8 +315,8 @@ Lemma Inv_schange W c k (np : option spay) :
          wS := fun c' => if N.eqb c' c then fset (wS W c) k np else wS W c';
          qP := qP W; qS := enqS W c e; wD := wD W |}.
 Proof.
-  intros (HD&HK&Hk&Hd&Hc) Hu e.
-  split; [exact HD|split; [exact HK|split; [exact Hk|split; [exact Hd|]]]].
+  intros (HD&HK&Hk&Hd&Hv&Hc) Hu e.
+  split; [exact HD|split; [exact HK|split; [exact Hk|split; [exact Hd|split; [exact Hv|]]]]].
   intros a. unfold covered. cbn [wP wS qP qS wD].
   destruct (Hc a) as [H|[H|H]].
   - destruct (wP W a) as [i|] eqn:Ep; [|left; exact H].
@@ -350,8 +359,8 @@ Qed.
 
 Lemma Inv_register W h : Inv W -> Inv (exec univ tr W (ARegister h)).
 Proof.
-  intros (HD&HK&Hk&Hd&Hc). cbn [exec].
-  split; [exact HD|split; [exact HK|split; [exact Hk|split; [exact Hd|exact Hc]]]].
+  intros (HD&HK&Hk&Hd&Hv&Hc). cbn [exec].
+  split; [exact HD|split; [exact HK|split; [exact Hk|split; [exact Hd|split; [exact Hv|exact Hc]]]]].
 Qed.
 
 (* D's queue runs a P batch *)
@@ -376,10 +385,14 @@ Qed.
 Lemma Inv_deliverP W : Inv W -> Inv (exec univ tr W ADeliverP).
 Proof.
   intros HI. cbn [exec]. destruct (qP W) as [|b q] eqn:Eq; [exact HI|].
-  destruct HI as (HD&HK&Hk&Hd&Hc).
-  destruct (handle_items_spec univ tr owner H_owned (wS W) (wD W) (primary_items (wP W) b) HD) as [HD' Hst].
+  destruct HI as (HD&HK&Hk&Hd&Hv&Hc).
+  assert (Hiv : forall i, In (ItemUpd i) (primary_items (wP W) b) -> valid i).
+  { intros i Hi. rewrite primary_items_map in Hi. apply in_map_iff in Hi. destruct Hi as [x [Hx _]].
+    unfold pitem in Hx. destruct (wP W (fst x)) as [j|] eqn:Ej; [|discriminate].
+    destruct (snd x); [discriminate|]. inversion Hx; subst. eapply Hv; eauto. }
+  destruct (handle_items_spec univ tr owner valid H_owned (wS W) (wD W) (primary_items (wP W) b) HD Hiv) as [HD' Hst].
   set (D' := handle_items univ tr (wS W) (wD W) (primary_items (wP W) b)) in *.
-  split; [exact HD'|split; [|split; [exact Hk|split; [exact Hd|]]]]; unfold Kinv, Pkey, Pdom, covered; cbn [wP wPdom wS qP qS wD].
+  split; [exact HD'|split; [|split; [exact Hk|split; [exact Hd|split; [exact Hv|]]]]]; unfold Kinv, Pkey, Pdom, covered; cbn [wP wPdom wS qP qS wD].
   - intros a e H. apply (HK a e). rewrite Eq. cbn [concat]. rewrite lastentry_app.
     destruct (lastentry_cases a _ _ _ H) as [[H1 H2]|[H1 _]]; [|discriminate].
     rewrite (lastentry_indep a (concat q) (lastentry a b None) None); [exact H|].
@@ -411,7 +424,7 @@ Proof.
       assert (Hsame : same_rec a (wD W) D') by exact Hst.
       destruct (Hc a) as [H|[H|H]].
       * left. cbn [wS wD wP].
-        apply (rec_ok_same univ tr owner H_owned (wS W) (wD W) D' a (wP W a) HD Hsame); [intros i Hi; eapply Hk; eauto|exact H].
+        apply (rec_ok_same univ tr owner valid H_owned (wS W) (wD W) D' a (wP W a) HD Hsame); [intros i Hi; split; [eapply Hk|eapply Hv]; eauto|exact H].
       * exfalso. destruct H as [e [He1 He2]]. rewrite Eq in He1. cbn [concat] in He1.
         apply in_app_iff in He1. destruct He1 as [He1|He1]; [exact (Hnb e He1 He2)|exact (Hn e He1 He2)].
       * right. right. destruct H as (c0&evs&e0&ds&H1&H2&H3&H4).
@@ -436,13 +449,15 @@ Qed.
 Lemma Inv_deliverS W order : Inv W -> Inv (exec univ tr W (ADeliverS order)).
 Proof.
   intros HI. cbn [exec]. destruct (qS W) as [|[c evs] q] eqn:Eq; [exact HI|].
-  destruct HI as (HD&HK&Hk&Hd&Hc). cbn zeta.
+  destruct HI as (HD&HK&Hk&Hd&Hv&Hc). cbn zeta.
   set (ch := changed_input_keys (wD W) c evs).
   set (L := arrange order ch).
   set (items := secondary_items (wP W) (wD W) L).
-  destruct (handle_items_spec univ tr owner H_owned (wS W) (wD W) items HD) as [HD' Hst].
+  assert (Hiv : forall i, In (ItemUpd i) items -> valid i).
+  { intros i Hi. destruct (secondary_item_src _ _ _ _ Hk Hi) as [a' (_&_&Ha3)]. eapply Hv; eauto. }
+  destruct (handle_items_spec univ tr owner valid H_owned (wS W) (wD W) items HD Hiv) as [HD' Hst].
   set (D' := handle_items univ tr (wS W) (wD W) items) in *.
-  split; [exact HD'|split; [exact HK|split; [exact Hk|split; [exact Hd|]]]]; unfold Kinv, Pkey, Pdom, covered; cbn [wP wPdom wS qP qS wD].
+  split; [exact HD'|split; [exact HK|split; [exact Hk|split; [exact Hd|split; [exact Hv|]]]]]; unfold Kinv, Pkey, Pdom, covered; cbn [wP wPdom wS qP qS wD].
   intros a. specialize (Hst a).
   destruct (memb a ch) eqn:Em.
   - (* a is recomputed *)
@@ -467,7 +482,7 @@ Proof.
             apply in_flat_map. exists k. split; [exact Hin|]. rewrite Eo. left. reflexivity. }
           destruct (lastf_hit items (fun _ => None) (ItemDel a) Hit) as [it' (_&_&H3)].
           cbn [item_key] in H3. congruence. }
-        apply (rec_ok_same univ tr owner H_owned (wS W) (wD W) D' a None HD Hst); [intros; discriminate|exact Hr].
+        apply (rec_ok_same univ tr owner valid H_owned (wS W) (wD W) D' a None HD Hst); [intros; discriminate|exact Hr].
       * rewrite H3 in Hst. destruct it' as [a0|i']; [exact Hst|].
         exfalso. destruct (secondary_item_src _ _ _ _ Hk H1) as [a' (Ha1&Ha2&Ha3)].
         rewrite H2 in Ha2. subst a'. congruence.
@@ -478,7 +493,7 @@ Proof.
     rewrite lastf_none in Hst by exact Hno.
     destruct (Hc a) as [H|[H|H]].
     + left. cbn [wS wD wP].
-      apply (rec_ok_same univ tr owner H_owned (wS W) (wD W) D' a (wP W a) HD Hst); [intros i Hi; eapply Hk; eauto|exact H].
+      apply (rec_ok_same univ tr owner valid H_owned (wS W) (wD W) D' a (wP W a) HD Hst); [intros i Hi; split; [eapply Hk|eapply Hv]; eauto|exact H].
     + right. left. exact H.
     + right. right. destruct H as (c0&evs0&e0&ds&H1&H2&H3&H4).
       rewrite Eq in H1. destruct H1 as [H1|H1].
@@ -490,12 +505,12 @@ Proof.
         destruct Hst as (S1&_). cbn [wD]. rewrite S1. exact H3.
 Qed.
 
-Lemma Inv_exec W x : Inv W -> Inv (exec univ tr W x).
+Lemma Inv_exec W x : act_valid x -> Inv W -> Inv (exec univ tr W x).
 Proof.
-  destruct x.
-  - apply Inv_pput.
+  destruct x; cbn [act_valid]; intros Hx.
+  - apply Inv_pput. exact Hx.
   - apply Inv_pdel.
-  - apply Inv_preset.
+  - apply Inv_preset. exact Hx.
   - apply Inv_sput.
   - apply Inv_sdel.
   - apply Inv_deliverP.
@@ -503,16 +518,17 @@ Proof.
   - apply Inv_register.
 Qed.
 
-Lemma Inv_run : forall xs W, Inv W -> Inv (run univ tr W xs).
+Lemma Inv_run : forall xs W, Forall act_valid xs -> Inv W -> Inv (run univ tr W xs).
 Proof.
-  unfold run. induction xs as [|x xs IH]; intros W H; cbn [fold_left]; [exact H|].
-  apply IH. apply Inv_exec. exact H.
+  unfold run. induction xs as [|x xs IH]; intros W Hv H; cbn [fold_left]; [exact H|].
+  inversion Hv; subst. apply IH; [assumption|]. apply Inv_exec; assumption.
 Qed.
 
 (* Headline: after ANY interleaving of source mutations, queue deliveries (with any iteration order of the
    changed-input set) and handler registrations, once D's queues are empty its contents are exactly the
    transformation applied to the current inputs. *)
 Theorem state_is_function : forall xs,
+  Forall act_valid xs ->
   let W := run univ tr w0 xs in
   qP W = [] -> qS W = [] ->
   forall k, d_outputs (wD W) k =
@@ -521,8 +537,8 @@ Theorem state_is_function : forall xs,
             | None => None
             end.
 Proof.
-  intros xs W HqP HqS k.
-  destruct (Inv_run xs w0 Inv_w0) as (HD&_&Hk&_&Hc). fold W in HD, Hk, Hc.
+  intros xs Hval W HqP HqS k.
+  destruct (Inv_run xs w0 Hval Inv_w0) as (HD&_&Hk&_&_&Hc). fold W in HD, Hk, Hc.
   destruct HD as (Hown&Hout&_&_).
   assert (Hr : rec_ok (wS W) (wD W) (owner k) (wP W (owner k))).
   { destruct (Hc (owner k)) as [H|[H|H]]; [exact H| |].
@@ -544,13 +560,14 @@ Qed.
 (* the dependency-tracking core, restated on reachable states: whenever a queued secondary batch contains an
    object whose old or new version matches a filter recorded for input a, processing it recomputes a *)
 Theorem dependency_sound : forall xs,
+  Forall act_valid xs ->
   let W := run univ tr w0 xs in
   forall c evs e a ds,
     d_deps (wD W) a = Some ds -> In e evs -> object_changed ds c e false = true ->
     In a (changed_input_keys (wD W) c evs).
 Proof.
-  intros xs W c evs e a ds H1 H2 H3.
-  destruct (Inv_run xs w0 Inv_w0) as ((_&_&Hrev&_)&_). fold W in Hrev.
+  intros xs Hval W c evs e a ds H1 H2 H3.
+  destruct (Inv_run xs w0 Hval Inv_w0) as ((_&_&Hrev&_)&_). fold W in Hrev.
   eapply changed_sound; eauto.
 Qed.
 End Inv.
